@@ -70,12 +70,13 @@ Corresponding(c, cls, early) ==
          [] OTHER -> TRUE
 ClassesOf(r) == {r.diags[i].c : i \in 1..Len(r.diags)} \cup (IF r.ok THEN {} ELSE {r.e.c})
 
+\* (events with the field `frag` were observed on load_fragment: lenient, no diagnostics are returned to the caller)
 Verdict(ev) ==
-    LET r == Run IN
+    LET r == IF "frag" \in DOMAIN ev THEN RunFragment ELSE Run IN
     /\ ("case" \in DOMAIN ev => Chk("CorrespondingClass", Corresponding(ev.case, ClassesOf(r), Strict /\ ~r.ok /\ r.e.c \in {"BlockRefTooNew", "EnumRefTooNew"})))
     /\ IF ev.out.ok
        THEN /\ Chk("Outcome", r.ok)
-            /\ r.ok => /\ Chk("Diagnostics", DiagSeq(r.diags) = LoggedDiags(ev.out))
+            /\ r.ok => /\ "frag" \in DOMAIN ev \/ Chk("Diagnostics", DiagSeq(r.diags) = LoggedDiags(ev.out))
                     \* which token lands in which field is decided here; whether the token text denotes the value
                     \* the library stored (number notation, string escapes) is compared by the driver
                     /\ PrintT(<<"TREE", l - 1, ToJson(r.tree)>>)
